@@ -3,7 +3,7 @@
    reports, and non-vacuity examples.  All statements are over exact rationals (Q, ==). *)
 From QV.lib Require Import Prelude Chunks C18_QTensor.
 From QV.model Require Import C18_Model.
-From QV.proof Require Import C18_Proofs C18_Proofs_Plane C18_Proofs_Shift.
+From QV.proof Require Import C18_Proofs C18_Proofs_Plane C18_Proofs_Shift C18_Proofs_Ext.
 From Coq Require Import QArith Qround.
 Local Close Scope Q_scope.
 
@@ -225,4 +225,214 @@ Proof.
   split.
   - repeat constructor; vm_compute; reflexivity.
   - split; [vm_compute; reflexivity|]. split; [repeat constructor|]. split; vm_compute; reflexivity.
+Qed.
+
+(* ================================================================ round-3 extension *)
+(* ---------------------------------------------------------------- masks and call histories *)
+(* applying a 0/1 detector mask twice is applying it once, entry by entry (any shapes) *)
+Theorem C18_mask_idempotent_binary :
+  forall (I m : matrix), binary_mask m ->
+    meq (apply_mask (Some m) (apply_mask (Some m) I)) (apply_mask (Some m) I).
+Proof. exact mask_idempotent_binary. Qed.
+Print Assumptions C18_mask_idempotent_binary.
+
+(* so the looped path's `masked_intensity *= dp_mask` (as written before
+   fixes/C18-looped-com-mutates-input.diff) does not change the CoM of a pattern it has already
+   multiplied, PROVIDED the mask is 0/1 *)
+Theorem C18_inplace_loop_binary_stable :
+  forall (H W : nat) (I m : matrix), binary_mask m ->
+    peq (com_weighted H W (apply_mask (Some m) (apply_mask (Some m) I)))
+        (com_weighted H W (apply_mask (Some m) I)).
+Proof. exact inplace_loop_binary_stable. Qed.
+Print Assumptions C18_inplace_loop_binary_stable.
+
+(* ... and it DOES change it for a fractional mask *)
+Theorem C18_inplace_loop_fractional_refuted :
+  exists (I m : matrix),
+    wf_mat 1 2 I /\ wf_mat 1 2 m /\
+    Forall (Forall (fun x => (0 <= x <= 1)%Q)) m /\
+    ~ peq (com_weighted 1 2 (apply_mask (Some m) (apply_mask (Some m) I)))
+          (com_weighted 1 2 (apply_mask (Some m) I)).
+Proof. exact inplace_loop_fractional_differs. Qed.
+Print Assumptions C18_inplace_loop_fractional_refuted.
+
+(* repaired code (neither path touches the caller's array): whatever was called before on the
+   same array -- either path, any masks, any number of calls -- every call returns the value of
+   the vectorised path on the ORIGINAL array with that call's mask *)
+Theorem C18_com_history_independent :
+  forall (Rn Cn H W : nat) (I4 : list (list matrix)) (calls : list com_call),
+    wf_scan Rn Cn I4 ->
+    com_history (com_step Rn Cn H W) I4 calls
+    = map (fun c => com_vectorised H W (call_mask c) I4) calls.
+Proof. exact com_history_pure. Qed.
+Print Assumptions C18_com_history_independent.
+
+(* the in-place code: a looped call with a 0/1 mask followed by an unmasked call *)
+Theorem C18_com_history_inplace_refuted :
+  exists (I4 : list (list matrix)) (m : matrix),
+    wf_scan 1 1 I4 /\ Forall (Forall (wf_mat 2 3)) I4 /\ wf_mat 2 3 m /\ binary_mask m /\
+    exists r1 r2,
+      com_history (com_step_inplace 1 1 2 3) I4 [ComCall false (Some m); ComCall true None] = [r1; r2] /\
+      ~ meq (fst r2) (fst (com_vectorised 2 3 None I4)).
+Proof. exact com_history_inplace_differs. Qed.
+Print Assumptions C18_com_history_inplace_refuted.
+
+(* the in-place code restricted to ONE 0/1 mask used by every call: history independent up
+   to == (this is where the in-place multiplication is harmless) *)
+Theorem C18_com_history_inplace_binary :
+  forall (Rn Cn H W : nat) (m : matrix) (I4 : list (list matrix)) (calls : list com_call),
+    wf_scan Rn Cn I4 -> binary_mask m ->
+    Forall (fun c => call_mask c = Some m) calls ->
+    Forall (fun r => req r (com_vectorised H W (Some m) I4))
+           (com_history (com_step_inplace Rn Cn H W) I4 calls).
+Proof. exact com_history_inplace_binary. Qed.
+Print Assumptions C18_com_history_inplace_binary.
+
+(* ---------------------------------------------------------------- curve_fit families *)
+(* constants are planes, planes are parabolas, parabolas are bezier_two surfaces (explicit
+   re-parametrisations, Bernstein basis) *)
+Theorem C18_family_inclusions :
+  (forall k r c, (plane_fn (plane_of_const k) r c == const_fn k r c)%Q) /\
+  (forall p r c, (parabola_fn (parabola_of_plane p) r c == plane_fn p r c)%Q) /\
+  (forall p r c, (bezier2_fn (bezier2_of_parabola p) r c == parabola_fn p r c)%Q).
+Proof. exact (conj const_in_plane (conj plane_in_parabola parabola_in_bezier2)). Qed.
+Print Assumptions C18_family_inclusions.
+
+(* fit_origin with fit_function = plane / parabola / bezier_two: a least-squares minimiser
+   (curve_fit contract) over ANY of the three families returns a plane the data lie on *)
+Theorem C18_lsq_any_family_fits_plane :
+  forall (Rn Cn : nat) (data : list (list Q)) (p0 : Q * Q * Q),
+    (forall r c, r < Rn -> c < Cn -> (plane_fn p0 r c == get data r c)%Q) ->
+    (forall p, (forall q, (sse plane_fn Rn Cn data p <= sse plane_fn Rn Cn data q)%Q) ->
+               forall r c, r < Rn -> c < Cn -> (plane_fn p r c == get data r c)%Q) /\
+    (forall p, (forall q, (sse parabola_fn Rn Cn data p <= sse parabola_fn Rn Cn data q)%Q) ->
+               forall r c, r < Rn -> c < Cn -> (parabola_fn p r c == get data r c)%Q) /\
+    (forall p, (forall q, (sse bezier2_fn Rn Cn data p <= sse bezier2_fn Rn Cn data q)%Q) ->
+               forall r c, r < Rn -> c < Cn -> (bezier2_fn p r c == get data r c)%Q).
+Proof. exact lsq_any_family_fits_plane. Qed.
+Print Assumptions C18_lsq_any_family_fits_plane.
+
+Theorem C18_lsq_plane_fits_const :
+  forall (Rn Cn : nat) (data : list (list Q)) (k : Q) (p : Q * Q * Q),
+    (forall r c, r < Rn -> c < Cn -> (k == get data r c)%Q) ->
+    (forall q, (sse plane_fn Rn Cn data p <= sse plane_fn Rn Cn data q)%Q) ->
+    forall r c, r < Rn -> c < Cn -> (plane_fn p r c == get data r c)%Q.
+Proof. exact lsq_plane_fits_const. Qed.
+Print Assumptions C18_lsq_plane_fits_const.
+
+Theorem C18_lsq_bezier2_fits_parabola :
+  forall (Rn Cn : nat) (data : list (list Q)) (p0 : Q * Q * Q * Q * Q * Q) p,
+    (forall r c, r < Rn -> c < Cn -> (parabola_fn p0 r c == get data r c)%Q) ->
+    (forall q, (sse bezier2_fn Rn Cn data p <= sse bezier2_fn Rn Cn data q)%Q) ->
+    forall r c, r < Rn -> c < Cn -> (bezier2_fn p r c == get data r c)%Q.
+Proof. exact lsq_bezier2_fits_parabola. Qed.
+Print Assumptions C18_lsq_bezier2_fits_parabola.
+
+(* ---------------------------------------------------------------- non-integer shifts *)
+(* what shift_origin_to computes for ANY (rational) origin - coordinate, both sizes >= 2: the
+   bilinear interpolation of the PERIODIC continuation at ((y + s_y) mod H, (x + s_x) mod W),
+   except that a neighbour beyond the last row / column is replaced by 0 (zero padding) *)
+Theorem C18_shift_general_exact :
+  forall (H W : nat) (oy ox cy cx : Q) (I : matrix) (y x : nat),
+    2 <= H -> 2 <= W -> y < H -> x < W ->
+    (get (shift_pattern H W oy ox cy cx I) y x
+     == seam_bilinear H W I (qmod (Qn y + (oy - cy)) (Qn H)) (qmod (Qn x + (ox - cx)) (Qn W)))%Q.
+Proof. exact shift_general_exact. Qed.
+Print Assumptions C18_shift_general_exact.
+
+(* hence a true circular sub-pixel shift wherever the wrapped coordinate is not in the last
+   row / column cell *)
+Theorem C18_shift_general_interior :
+  forall (H W : nat) (oy ox cy cx : Q) (I : matrix) (y x : nat),
+    2 <= H -> 2 <= W -> y < H -> x < W ->
+    (Qfloor (qmod (Qn y + (oy - cy)) (Qn H)) + 1 < Z.of_nat H)%Z ->
+    (Qfloor (qmod (Qn x + (ox - cx)) (Qn W)) + 1 < Z.of_nat W)%Z ->
+    (get (shift_pattern H W oy ox cy cx I) y x == get (pshift_pattern H W oy ox cy cx I) y x)%Q.
+Proof. exact shift_general_interior. Qed.
+Print Assumptions C18_shift_general_interior.
+
+(* ... and NOT a circular shift at the seam (outside the property: it speaks of integer shifts) *)
+Theorem C18_shift_fractional_seam_refuted :
+  exists (I : matrix) (oy : Q),
+    wf_mat 2 2 I /\ ~ meq (shift_pattern 2 2 oy 0 0 0 I) (pshift_pattern 2 2 oy 0 0 0 I).
+Proof. exact shift_fractional_seam_differs. Qed.
+Print Assumptions C18_shift_fractional_seam_refuted.
+
+(* ---------------------------------------------------------------- every detector shape *)
+(* with fixes/C18-shift-unit-detector-dimension.diff (normalisation by max(size-1, 1)) the
+   integer shift is the roll for EVERY detector shape, 1 x W, H x 1 and 1 x 1 included *)
+Theorem C18_integer_shift_is_roll_all_shapes :
+  forall (H W : nat) (oy ox cy cx : Q) (sy sx : Z) (I : matrix),
+    1 <= H -> 1 <= W -> wf_mat H W I ->
+    (oy - cy == inject_Z sy)%Q -> (ox - cx == inject_Z sx)%Q ->
+    meq (shift_pattern_r H W oy ox cy cx I) (roll2 (- sy) (- sx) I).
+Proof. exact integer_shift_is_roll_all_shapes. Qed.
+Print Assumptions C18_integer_shift_is_roll_all_shapes.
+
+(* and the repair changes nothing where both sizes are >= 2, for any shift *)
+Theorem C18_shift_repair_conservative :
+  forall (H W : nat) (oy ox cy cx : Q) (I : matrix),
+    2 <= H -> 2 <= W ->
+    meq (shift_pattern_r H W oy ox cy cx I) (shift_pattern H W oy ox cy cx I).
+Proof. exact shift_pattern_r_same. Qed.
+Print Assumptions C18_shift_repair_conservative.
+
+(* ---------------------------------------------------------------- non-vacuity (extension) *)
+Example C18_nonvacuous_binary_mask :
+  binary_mask ex_mask /\
+  apply_mask (Some ex_mask) ex_I <> ex_I /\
+  peq (com_weighted 2 3 (apply_mask (Some ex_mask) (apply_mask (Some ex_mask) ex_I))) (23 # 24, 127 # 72)%Q.
+Proof.
+  split; [repeat constructor; (left; reflexivity) || (right; reflexivity)|].
+  split; [vm_compute; discriminate | split; vm_compute; reflexivity].
+Qed.
+
+Example C18_nonvacuous_history :
+  wf_scan 1 2 [[ex_I; ex_J]] /\
+  map (fun r => map (map Qred) (fst r))
+      (com_history (com_step 1 2 2 3) [[ex_I; ex_J]]
+                   [ComCall false (Some ex_mask); ComCall true None; ComCall false (Some ex_mask)])
+  = [[[23 # 24; 2 # 3]]; [[23 # 25; 4 # 7]]; [[23 # 24; 2 # 3]]]%Q /\
+  Forall (fun c => call_mask c = Some ex_mask) [ComCall false (Some ex_mask); ComCall true (Some ex_mask)].
+Proof. split; [repeat constructor | split; [vm_compute; reflexivity | repeat constructor]]. Qed.
+
+Example C18_nonvacuous_families :
+  let pl := ((1 # 2)%Q, (- (1 # 4))%Q, 2%Q) in
+  let data := map (fun r => map (fun c => plane_fn pl r c) (seq 0 3)) (seq 0 3) in
+  (forall r c, r < 3 -> c < 3 -> (plane_fn pl r c == get data r c)%Q) /\
+  (forall q, (sse bezier2_fn 3 3 data (bezier2_of_parabola (parabola_of_plane pl)) <= sse bezier2_fn 3 3 data q)%Q) /\
+  (bezier2_fn (bezier2_of_parabola (3, 1 # 2, - (1 # 4), 1, 1 # 8, - (1 # 2))%Q) 2 1
+   == parabola_fn (3, 1 # 2, - (1 # 4), 1, 1 # 8, - (1 # 2))%Q 2 1)%Q /\
+  ~ (parabola_fn (3, 1 # 2, - (1 # 4), 1, 1 # 8, - (1 # 2))%Q 2 1 == plane_fn pl 2 1)%Q.
+Proof.
+  intros pl data. split; [| split; [| split]].
+  - intros r c Hr Hc.
+    destruct r as [|[|[|r]]]; [| | | lia]; (destruct c as [|[|[|c]]]; [| | | lia]); vm_compute; reflexivity.
+  - intros q.
+    assert (Hz : (sse bezier2_fn 3 3 data (bezier2_of_parabola (parabola_of_plane pl)) == 0)%Q) by (vm_compute; reflexivity).
+    rewrite Hz. unfold sse. apply dsum_nonneg. intros r c _ _. apply Qsq_nonneg.
+  - vm_compute. reflexivity.
+  - vm_compute. discriminate.
+Qed.
+
+(* a quarter-pixel shift of a 3 x 3 pattern: entry (0,0) is interior (periodic interpolation),
+   entry (2,0) is on the seam (the wrapped neighbour row 0 is replaced by zero) *)
+Example C18_nonvacuous_fractional_shift :
+  let I := zmat [[16; 32; 48]; [64; 80; 96]; [112; 128; 160]]%Z in
+  (get (shift_pattern 3 3 (1 # 4) 0 0 0 I) 0 0 == 28)%Q /\
+  (get (pshift_pattern 3 3 (1 # 4) 0 0 0 I) 0 0 == 28)%Q /\
+  (get (shift_pattern 3 3 (1 # 4) 0 0 0 I) 2 0 == 84)%Q /\
+  (get (pshift_pattern 3 3 (1 # 4) 0 0 0 I) 2 0 == 88)%Q /\
+  (Qfloor (qmod (Qn 0 + ((1 # 4) - 0)) (Qn 3)) + 1 < 3)%Z.
+Proof. cbv zeta. repeat split; vm_compute; reflexivity. Qed.
+
+Example C18_nonvacuous_unit_detector :
+  meq (shift_pattern_r 1 4 0 1 0 0 (zmat [[11; 8; 19; 4]]%Z)) (zmat [[8; 19; 4; 11]]%Z) /\
+  roll2 (- 0) (- 1) (zmat [[11; 8; 19; 4]]%Z) = zmat [[8; 19; 4; 11]]%Z /\
+  wf_mat 1 4 (zmat [[11; 8; 19; 4]]%Z) /\
+  meq (shift_pattern_r 3 1 2 0 0 0 (zmat [[1]; [2]; [3]]%Z)) (zmat [[3]; [1]; [2]]%Z).
+Proof.
+  split; [repeat constructor; vm_compute; reflexivity|].
+  split; [vm_compute; reflexivity|]. split; [repeat constructor|].
+  repeat constructor; vm_compute; reflexivity.
 Qed.
